@@ -1,5 +1,6 @@
 """C19 -- coupled logistic-map network stays inside the unit interval."""
 import math
+import time
 import numpy as np
 
 import lib
@@ -93,6 +94,30 @@ def run(chk):
         chk.count("steps_compared", max(0, len(rows) - 1))
         chk.count("with_isolated_node" if np.any(R.sum(axis=1) == 0) else "all_connected")
         chk.count("sigma_is_1" if full["sigma"] == 1.0 else "sigma_lt_1")
+    # hypothesis of the trajectory theorem: the initial row lies in [0,1] -- tied by replay: it is the seed's uniform draw
+    init_bad = []
+    for c in confs:
+        full = dict(n=20, p=0.1, t=100, r=3.99, sigma=0.1, seed=42)
+        full.update(c)
+        if len(init_bad) < 3:
+            x0 = logisic_dynamics(**{**c, "t": 1})[0]
+            want = np.random.default_rng(full["seed"]).random(full["n"])
+            if x0.shape != (1, full["n"]) or not np.array_equal(x0[0], want):
+                init_bad.append(f"n={full['n']} seed={full['seed']}: first row {x0[0][:3].tolist()}... is not default_rng(seed).random(n) = {want[:3].tolist()}...")
+    chk.oblige("correspondence", "the initial row is the seed's uniform draw on [0,1) (hypothesis of the trajectory theorem, replayed)",
+               not init_bad, "; ".join(init_bad)[:600])
+    if init_bad:
+        # the tie is broken: look for a seed whose initial row leaves [0,1] (bounded search: large n, t = 1, no edges)
+        t_end = time.time() + 45
+        sd = 0
+        while time.time() < t_end:
+            x0 = logisic_dynamics(n=400, p=0.0, t=1, seed=sd)[0]
+            if not (np.all(np.isfinite(x0)) and x0.min() >= 0 and x0.max() <= 1):
+                chk.violation("counterexample", f"logisic_dynamics(n=400, p=0.0, t=1, seed={sd}) starts outside [0,1]: min {x0.min()}, max {x0.max()}",
+                              {"call": {"n": 400, "p": 0.0, "t": 1, "seed": sd}, "min": float(x0.min()), "max": float(x0.max())})
+                break
+            sd += 1
+        chk.count("initial_row_search_seeds_tried", sd)
     lib.correspond(chk, "stepwise_model_vs_impl", IMPORTS, "Q * Q * list (list Q) * list (list Q)",
                    f"check_traj_case {qlit(1e-12)}", cases, pf, lambda i: desc[i], shard=25, jobs=14, timeout=1500)
     chk.rule = ("logisic_dynamics called with the default arguments and with sampled (n 1..30, p in {0,...,1}, t 1..200, r in [0,4] incl. 0, "
